@@ -14,6 +14,7 @@ pub enum Which {
     C07,
     C09,
     C13,
+    C12,
 }
 
 fn pool_side(p: &crate::vmarket::VPool<u128>, long: bool) -> u128 {
@@ -48,6 +49,39 @@ fn check_totals(w: &World, step: usize) -> Result<(), String> {
             if b(pool_side(cs, coll_long)) != coll {
                 return Err(format!("step {step}: {side} collateral sum ({ct}) = {} but positions hold {coll}", pool_side(cs, coll_long)));
             }
+        }
+    }
+    Ok(())
+}
+
+fn funding_indices(m: &M) -> [u128; 8] {
+    [
+        m.funding_amount_per_size.0.long_amount, m.funding_amount_per_size.0.short_amount,
+        m.funding_amount_per_size.1.long_amount, m.funding_amount_per_size.1.short_amount,
+        m.claimable_funding_amount_per_size.0.long_amount, m.claimable_funding_amount_per_size.0.short_amount,
+        m.claimable_funding_amount_per_size.1.long_amount, m.claimable_funding_amount_per_size.1.short_amount,
+    ]
+}
+
+fn check_funding(w: &World, prev: &mut [u128; 8], step: usize, rec: &mut Rec) -> Result<(), String> {
+    let cur = funding_indices(&w.market);
+    for i in 0..8 {
+        if cur[i] < prev[i] {
+            return Err(format!("step {step}: funding index #{i} decreased: {} -> {}", prev[i], cur[i]));
+        }
+    }
+    rec.class_if(cur[..4] != prev[..4], "funding_index_grew");
+    rec.class_if(cur[4..] != prev[4..], "claimable_index_grew");
+    *prev = cur;
+    for (i, p) in w.positions.iter().enumerate() {
+        if p.size_in_usd == 0 {
+            continue;
+        }
+        let mut pc = *p;
+        let mut m = w.market.clone();
+        let ops = VPositionOps::new(&mut m, &mut pc);
+        if let Err(e) = ops.pending_funding_fees() {
+            return Err(format!("step {step}: pending funding fees of position {i} cannot be computed (negative?): {e}"));
         }
     }
     Ok(())
@@ -93,6 +127,7 @@ fn check_borrowing(w: &World, prev_factors: &mut (u128, u128), step: usize, rec:
 pub fn check_history(h: &History, rec: &mut Rec, which: Which) -> Result<(), String> {
     let mut w = World::start(h);
     let mut factors = (w.market.borrowing_factor.long_amount, w.market.borrowing_factor.short_amount);
+    let mut findex = funding_indices(&w.market);
     let (mut partial, mut full, mut promoted, mut liq_ok, mut liq_rejected) = (0, 0, 0, 0, 0);
     for (step, op) in h.ops.iter().enumerate() {
         let before = w.clone();
@@ -178,6 +213,7 @@ pub fn check_history(h: &History, rec: &mut Rec, which: Which) -> Result<(), Str
             Which::C07 => check_totals(&w, step)?,
             Which::C13 => check_borrowing(&w, &mut factors, step, rec)?,
             Which::C09 => {}
+            Which::C12 => check_funding(&w, &mut findex, step, rec)?,
         }
     }
     rec.class_if(partial > 0, "partial_decrease");
@@ -189,6 +225,7 @@ pub fn check_history(h: &History, rec: &mut Rec, which: Which) -> Result<(), Str
         Which::C07 => rec.nontrivial_if(partial > 0 && full > 0),
         Which::C09 => rec.nontrivial_if(liq_ok > 0 || liq_rejected > 0 || partial > 0),
         Which::C13 => rec.nontrivial_if(partial + full > 0),
+        Which::C12 => rec.nontrivial_if(findex.iter().any(|x| *x > 0)),
     }
     Ok(())
 }
@@ -265,4 +302,13 @@ pub fn run_c13(ctx: &mut Ctx) {
     ctx.search("borrowing", n, || position_heavy(30), |h, rec| check_history(h, rec, Which::C13));
     ctx.floor("borrowing:factor_grew", 500);
     ctx.floor("borrowing:positions_at_different_factors", 100);
+}
+
+pub fn run_c12(ctx: &mut Ctx) {
+    ctx.rule("rate: cases = open-interest pairs (both > 0, equal, one zero), stored rate, durations 0..1e7 s, funding parameter sets (adaptive with all change types, non-adaptive); oracle = magnitude <= max always, >= min in adaptive mode, larger side pays in non-adaptive mode, computation never fails with both sides open and min <= max | indices: cases = position histories with clock advances; oracle = the four funding and four claimable per-size indices never decrease and every open position's pending funding fees are computable; non-trivial = both sides open with elapsed time / history in which an index grew");
+    crate::props::pure::run_c12_rate(ctx);
+    let n = ctx.cases(15_000, 750_000);
+    ctx.search("indices", n, || position_heavy(30), |h, rec| check_history(h, rec, Which::C12));
+    ctx.floor("indices:funding_index_grew", 300);
+    ctx.floor("indices:claimable_index_grew", 300);
 }
